@@ -75,7 +75,11 @@ def _extra_families():
                 outputscale_prior=P.HalfCauchyPrior(1.5 * s), outputscale_constraint=C.Interval(0.01 * s, 20.0 * s),
             )
             mean = gpytorch.means.ConstantMean(constant_prior=P.NormalPrior(0.1 * s, 2.0 * s))
-            return util.GP(self.X, self.y, lik, mean, k)
+            gp = util.GP(self.X, self.y, lik, mean, k)
+            # priors registered by parameter NAME (the library builds the closure) and by user closures
+            k.base_kernel.register_prior("vf_named_raw_ls", P.NormalPrior(0.3 * s, 1.1 * s), "raw_lengthscale")
+            k.register_prior("vf_closure_os", P.GammaPrior(2.0 * s, 1.5 * s), _outputscale_of)
+            return gp
 
     class RFF(H.Default):
         name = "rff"
@@ -124,6 +128,11 @@ def _fams():
         d.update(_extra_families())
         _ST["fams"] = d
     return _ST["fams"]
+
+
+def _outputscale_of(mod):
+    """a user closure for a registered prior (module level, so that pickle can carry it by reference)"""
+    return mod.outputscale
 
 
 def _objective(fam, m):
@@ -283,6 +292,13 @@ def run_case(case, ctx):
         # ---- a copy is independent of the original: the original moves on (an in-place parameter update, what an
         # optimiser step does), the copies still describe the saved state
         if i == len(steps) - 1:
+            # copies that are only LOOKED AT after the original has moved (nothing recomputed on them before)
+            untouched = {}
+            for mech, fn in (("pickle", lambda x: pickle.loads(pickle.dumps(x))), ("deepcopy", copy.deepcopy)):
+                try:
+                    untouched[mech] = fn(m)
+                except Exception:
+                    pass
             before_cp = {}
             for mech, cp in copies.items():
                 try:
@@ -297,6 +313,19 @@ def run_case(case, ctx):
                     _compare(ctx, "copy_independent_of_original", fam, ob, _observe(fam, copies[mech]), (1e-12, 1e-12), mech=mech, **kw)
                 except Exception as e:
                     ctx.fail("copy_independent_of_original", f"{mech} copy raised after the original moved: {type(e).__name__}: {str(e)[:120]}", "raise", mech=mech, **kw)
+            for mech, cp in untouched.items():
+                try:
+                    _compare(ctx, "copy_independent_of_original", fam, orig2, _observe(fam, cp), (1e-9, 1e-9), mech=mech + ":first_look_after_original_moved", **kw)
+                    cv, _ = _objective(fam, cp)
+                    ctx.close("copy_independent_of_original", cv, ov, (1e-9, 1e-9), cls="objective:" + mech + ":first_look_after_original_moved", mech=mech, **kw)
+                except Exception as e:
+                    ctx.fail("copy_independent_of_original", f"{mech} copy raised after the original moved: {type(e).__name__}: {str(e)[:120]}", "raise", mech=mech, **kw)
+            for mech, cp in copies.items():
+                try:
+                    cv, _ = _objective(fam, cp)
+                    ctx.close("copy_independent_of_original", cv, ov, (1e-9, 1e-9), cls="objective:" + mech, mech=mech, **kw)
+                except Exception as e:
+                    ctx.fail("copy_independent_of_original", f"{mech} copy's objective raised after the original moved: {type(e).__name__}: {str(e)[:120]}", "raise", mech=mech, **kw)
     ctx.cell({"family": case["family"], "seq": case["seq"]}, nontrivial=True)
 
 
